@@ -1,7 +1,11 @@
 package main
 
 import (
+	"context"
 	"fmt"
+
+	lisp "github.com/jig/lisp"
+	"github.com/jig/lisp/debuggertypes"
 
 	"github.com/jig/lisp/types"
 	. "verif.local/harness/h"
@@ -124,6 +128,39 @@ func runC08(tier string, seed uint64, rep *Report) {
 			}
 		} else {
 			rep.Violate(idx, "loop did not complete: "+outcomeLine(o), Show(prog))
+		}
+	}
+	// ---- a debugger stepper was attached for a while and then DETACHED (lisp.Stepper = nil): loops evaluated afterwards are flat
+	// again, in the environment the stepper saw and in a fresh one
+	{
+		w0, _ := NewWorld()
+		lisp.ResetStepperForVerif()
+		lisp.Stepper = func(a types.MalType, ns types.EnvType) debuggertypes.Command { return debuggertypes.NoOp }
+		w0.EvalText(context.Background(), "(do (def warm (fn [n] (if (= n 0) 0 (warm (- n 1))))) (warm 5))")
+		lisp.Stepper = nil
+		lisp.ResetStepperForVerif()
+		for i := 0; i < 40; i++ {
+			defs, _ := g.loop(1+g.r.Intn(3), nest)
+			ns := []int{2, 10, 120}
+			calls := []types.MalType{S("list")}
+			for _, n := range ns {
+				calls = append(calls, g.entryCall(n))
+			}
+			prog := L(append(append([]types.MalType{S("do")}, defs...), L(calls...))...)
+			idx, _, o := addProgram(rep, prog, true, "shape-after-stepper-detached")
+			if l, ok := o.Val.(types.List); ok && len(l.Val) == len(ns) {
+				if l.Val[0] != l.Val[1] || l.Val[1] != l.Val[2] {
+					rep.Violate(idx, fmt.Sprintf("after a stepper was attached and detached, host stack depth grows with the iteration count: depths for n=%v are %s", ns, Show(l)), "lisp.Stepper = f; EVAL anything; lisp.Stepper = nil; then: "+Show(prog))
+				}
+			} else {
+				rep.Violate(idx, "loop did not complete: "+outcomeLine(o), Show(prog))
+			}
+			if i < 5 { // the environment that was stepped
+				o2 := w0.Eval(context.Background(), prog)
+				if l, ok := o2.Val.(types.List); !ok || len(l.Val) != 3 || l.Val[0] != l.Val[2] {
+					rep.Violate(idx, "after a stepper was attached and detached, in the environment it saw: "+outcomeLine(o2), Show(prog))
+				}
+			}
 		}
 	}
 	if tier == "thorough" { // long loops complete
